@@ -31,7 +31,7 @@ var c08Mutations = []string{
 func genC08(r *kernel.Rand) *kernel.Scenario {
 	sc := &kernel.Scenario{Config: map[string]int64{}}
 	c := sc.Config
-	c["ser"] = 0
+	c["ser"] = int64(r.Intn(2))
 	c["fifo"] = int64(r.Intn(2))
 	c["async_bus"] = int64(r.Intn(2))
 	c["bus_max_us"] = int64([]int{100, 400, 2000}[r.Intn(3)])
